@@ -196,6 +196,16 @@ static std::map<std::vector<uint64_t>, double> canon(const DetectorErrorModel &m
     return r;
 }
 
+namespace vh {
+// loop-heavy circuits for other areas (C02: sampling with a folded reference sample)
+stim::Circuit fold_loop_circuit(Rng &rng, Stats &st) {
+    uint64_t reps = 0;
+    // mostly the templates with results before the loop that differ from the periodic part, and feedback reaching across the loop end
+    if (rng.chance(0.6)) return boundary_feedback_circuit(rng, st, reps);
+    return loop_circuit(rng, st, reps, false);
+}
+}  // namespace vh
+
 VH_AREA(fold) {
     Stats st;
     Rng master(a.seed * 141650939 + 61);
